@@ -563,7 +563,11 @@ func c10Classify(c c10Case) (nontrivial bool, labels []string) {
 		}
 	}
 	if i := c.first("fb"); i >= 0 {
-		add(fmt.Sprintf("fb-type=%d", c.Tags[i].Fb.Type))
+		if ft := c.Tags[i].Fb.Type; ft <= 2 {
+			add(fmt.Sprintf("fb-type=%d", ft))
+		} else {
+			add("fb-type=undefined")
+		}
 	}
 	if i := c.first("cmdline"); i >= 0 {
 		text := c.Tags[i].Cmd
@@ -776,7 +780,9 @@ func c10GenFb(t *rapid.T) *c10Fb {
 		Width:    rapid.Uint32().Draw(t, "width"),
 		Height:   rapid.Uint32().Draw(t, "height"),
 		Bpp:      rapid.OneOf(rapid.SampledFrom([]uint8{4, 8, 15, 16, 24, 32}), rapid.Uint8()).Draw(t, "bpp"),
-		Type:     uint8(rapid.IntRange(0, 2).Draw(t, "fbtype")),
+		// the quantifier says "every framebuffer type": the three defined ones most of the time, any other byte otherwise
+		// (an undefined type encodes no RGB layout, so none may be reported - round 21, C10-u)
+		Type:     uint8(rapid.OneOf(rapid.IntRange(0, 2), rapid.IntRange(0, 2), rapid.IntRange(3, 255), rapid.SampledFrom([]int{3, 4, 0x80, 0xff})).Draw(t, "fbtype")),
 		Reserved: rapid.SampledFrom([]uint16{0, 0, 0xffff, 0x0101}).Draw(t, "fbrsv"),
 	}
 	switch f.Type {
@@ -785,8 +791,11 @@ func c10GenFb(t *rapid.T) *c10Fb {
 		f.Color = append([]byte{byte(nc), 0, 0, 0}, rapid.SliceOfN(rapid.Byte(), 3*nc, 3*nc).Draw(t, "palette")...)
 	case 1:
 		f.Color = rapid.SliceOfN(rapid.Byte(), 6, 6).Draw(t, "rgb")
-	default:
+	case 2:
 		f.Color = []byte{}
+	default:
+		// what follows the fixed part of a tag of an undefined type is not specified: nothing, or bytes that would pass for a layout
+		f.Color = rapid.OneOf(rapid.Just([]byte{}), rapid.SliceOfN(rapid.Byte(), 6, 6), rapid.SliceOfN(rapid.Byte(), 0, 12)).Draw(t, "fbtail")
 	}
 	return f
 }
